@@ -270,3 +270,25 @@ func vfrmErrClass(err error) string {
 	}
 	return fmt.Sprintf("other(%v)", err)
 }
+
+// vfrmPrio draws a priority block with boundary dependencies and weights over-represented.
+func vfrmPrio(rng *rand.Rand) h2ref.Priority {
+	p := h2ref.Priority{Exclusive: rng.IntN(2) == 0, Weight: uint8(rng.Uint32())}
+	switch rng.IntN(5) {
+	case 0:
+		p.StreamDep = 0
+	case 1:
+		p.StreamDep = 1<<31 - 1
+	case 2:
+		p.StreamDep = 1 + rng.Uint32N(10)
+	default:
+		p.StreamDep = rng.Uint32N(1 << 31)
+	}
+	switch rng.IntN(6) {
+	case 0:
+		p.Weight = 0
+	case 1:
+		p.Weight = 255
+	}
+	return p
+}
